@@ -77,24 +77,173 @@ Lemma state_premises_satisfiable :
          (rs_wit_pre ++ AuthOK 2 20 7 :: [Heartbeat 1 10; Close 1 10])) 7 = None.
 Proof. split; [discriminate|]. repeat split; vm_compute; reflexivity. Qed.
 
-(* ---- storage-call granularity: the service's read-modify-write windows (candidates; HEAD code) ---- *)
+(* the tunnel-typed handshake of the pinned ServerAuthHandler: after a control login on (1, 10), a tunnel-typed handshake on
+   node 2 moves the record there, and the close of that tunnel connection then deletes the record of a client whose control
+   connection is registered (replayed on the REAL auth handler by the harness, mode realauth) *)
+Lemma tunnel_handshake_refuted :
+  let rs1 := upd rs_empty 7 (Some (1, 10)) in
+  tunnel_handshake_effect true rs1 7 2 30 7 = Some (2, 30) /\
+  loc_eqb (tunnel_handshake_effect true rs1 7 2 30 7) 2 30 = true /\
+  tunnel_handshake_effect false rs1 7 2 30 7 = Some (1, 10) /\
+  loc_eqb (tunnel_handshake_effect false rs1 7 2 30 7) 2 30 = false.
+Proof. vm_compute. repeat split; reflexivity. Qed.
 
-(* DisconnectClientIfMatch(old) || ConnectClient(new): the new login's record is deleted *)
+(* ---- storage-call granularity: the two-call service (cas = false) has two read-modify-write windows ---- *)
 Lemma disconnect_window_refuted :
-  exists sched, fst (rrun (rs_old, [RDisc 7 1 10; RConnect 7 2 20]) sched) 7 = None /\
-                snd (rrun (rs_old, [RDisc 7 1 10; RConnect 7 2 20]) sched) = [RDone; RDone].
+  exists sched, rloc (fst (rrun false (rs_old, [RDisc 7 1 10 0; RConnect 7 2 20]) sched)) 7 = None /\
+                snd (rrun false (rs_old, [RDisc 7 1 10 0; RConnect 7 2 20]) sched) = [RDone; RDone].
 Proof. exists [0;1;1;0]%nat. vm_compute. split; reflexivity. Qed.
 
-(* EnsureClientOnline(old connection) || ConnectClient(new): the touch writes the OLD location back *)
 Lemma touch_window_refuted :
-  exists sched, fst (rrun (rs_old, [REnsure 7 1 10; RConnect 7 2 20]) sched) 7 = Some (1, 10) /\
-                snd (rrun (rs_old, [REnsure 7 1 10; RConnect 7 2 20]) sched) = [RDone; RDone].
+  exists sched, rloc (fst (rrun false (rs_old, [REnsure 7 1 10 0; RConnect 7 2 20]) sched)) 7 = Some (1, 10) /\
+                snd (rrun false (rs_old, [REnsure 7 1 10 0; RConnect 7 2 20]) sched) = [RDone; RDone].
 Proof. exists [0;1;1;0]%nat. vm_compute. split; reflexivity. Qed.
 
-(* without interleaving (each service call atomic) both end at the new location *)
 Lemma windows_sequential_ok :
-  fst (rrun (rs_old, [RDisc 7 1 10; RConnect 7 2 20]) [0;0;1;1]%nat) 7 = Some (2, 20) /\
-  fst (rrun (rs_old, [RDisc 7 1 10; RConnect 7 2 20]) [1;1;0;0]%nat) 7 = Some (2, 20) /\
-  fst (rrun (rs_old, [REnsure 7 1 10; RConnect 7 2 20]) [0;0;1;1]%nat) 7 = Some (2, 20) /\
-  fst (rrun (rs_old, [REnsure 7 1 10; RConnect 7 2 20]) [1;1;0;0]%nat) 7 = Some (2, 20).
+  rloc (fst (rrun false (rs_old, [RDisc 7 1 10 0; RConnect 7 2 20]) [0;0;1;1]%nat)) 7 = Some (2, 20) /\
+  rloc (fst (rrun false (rs_old, [RDisc 7 1 10 0; RConnect 7 2 20]) [1;1;0;0]%nat)) 7 = Some (2, 20) /\
+  rloc (fst (rrun false (rs_old, [REnsure 7 1 10 0; RConnect 7 2 20]) [0;0;1;1]%nat)) 7 = Some (2, 20) /\
+  rloc (fst (rrun false (rs_old, [REnsure 7 1 10 0; RConnect 7 2 20]) [1;1;0;0]%nat)) 7 = Some (2, 20).
 Proof. repeat split; vm_compute; reflexivity. Qed.
+
+(* ---- the repaired service (cas = true): the login survives every schedule ---- *)
+Section RStable.
+  Variables X B b : N.
+
+  Lemma rval_eqb_eq a c : rval_eqb a c = true -> a = c.
+  Proof.
+    destruct a as [[n1 c1] v1]. destruct c as [[n2 c2] v2]. cbn.
+    intro H. apply andb_true_iff in H. destruct H as [H H3]. apply andb_true_iff in H. destruct H as [H1 H2].
+    apply N.eqb_eq in H1. apply N.eqb_eq in H2. apply N.eqb_eq in H3. subst. reflexivity.
+  Qed.
+
+  Lemma holds_val_eq sh x a : holds_val sh x a = true -> rmap sh x = Some a.
+  Proof.
+    unfold holds_val. destruct (rmap sh x) as [c|]; [|discriminate].
+    intro H. apply rval_eqb_eq in H. subst. reflexivity.
+  Qed.
+
+  Lemma live_some o a : live o = Some a -> o = Some a.
+  Proof. unfold live. destruct o as [c|]; [|discriminate]. destruct (is_tomb c); [discriminate|]. auto. Qed.
+
+  Lemma rest_write sh x n c : rest X B b sh -> (x = X -> n = B /\ c = b) -> rest X B b (rwrite sh x n c).
+  Proof.
+    intros [v Hv] Hx. unfold rest, rwrite. cbn [rmap].
+    destruct (N.eq_dec X x) as [E|E].
+    - subst x. destruct (Hx eq_refl) as [-> ->]. rewrite upd_same. eexists. reflexivity.
+    - rewrite upd_other; [exists v; exact Hv|exact E].
+  Qed.
+
+  (* one storage call of one safe invocation keeps the other invocations' guarantees *)
+  Lemma rsafe_step lo sh :
+    rsafe X B b lo ->
+    rsafe X B b (fst (rstep true lo sh)) /\ (rest X B b sh -> rest X B b (snd (rstep true lo sh))).
+  Proof.
+    intro Hs. destruct lo; cbn [rstep rsafe] in *; try contradiction.
+    - (* RConnect *) split; [exact Hs|auto].
+    - (* RConnect2 *) split; [exact I|]. intro Hr. apply rest_write; assumption.
+    - (* REnsure *)
+      split; [|cbn [snd]; auto].
+      destruct (live (rmap sh x)) as [[[n0 c0] v0]|]; cbn [fst rsafe]; exact I.
+    - (* REnsureCas *)
+      destruct (holds_val sh x a) eqn:Eh; cbn [fst snd rsafe].
+      + split; [exact I|]. intro Hr. apply rest_write; [exact Hr|].
+        intro Ex. subst x. apply holds_val_eq in Eh. destruct Hr as [v Hv]. rewrite Hv in Eh. injection Eh as <-.
+        split; reflexivity.
+      + split; [|auto]. destruct (Nat.ltb (S i) retries); exact I.
+    - (* REnsureNX *)
+      split; [exact I|]. cbn [snd]. intro Hr.
+      destruct (rmap sh x) as [a|] eqn:Em; [exact Hr|].
+      apply rest_write; [exact Hr|]. intro Ex. subst x. destruct Hr as [v Hv]. rewrite Hv in Em. discriminate.
+    - (* RDisc *)
+      split; [|cbn [snd]; auto].
+      destruct (live (rmap sh x)) as [[[n0 c0] v0]|] eqn:El; cbn [fst]; [|exact I].
+      destruct ((n0 =? n) && (c0 =? c)) eqn:Em; cbn [rsafe]; [|exact I].
+      apply andb_true_iff in Em. destruct Em as [E1 E2]. apply N.eqb_eq in E1. apply N.eqb_eq in E2. subst n0 c0.
+      intro Ex. split; [exact (Hs Ex)|]. split; reflexivity.
+    - (* RDiscCas *)
+      destruct (holds_val sh x a) eqn:Eh; cbn [fst snd rsafe].
+      + split; [exact I|]. intro Hr.
+        destruct (N.eq_dec X x) as [E|E].
+        * subst x. exfalso. destruct (Hs eq_refl) as [Hne [Ha1 Ha2]].
+          apply holds_val_eq in Eh. destruct Hr as [v Hv]. rewrite Hv in Eh. injection Eh as <-.
+          cbn [fst snd] in Ha1, Ha2. apply Hne. split; congruence.
+        * destruct Hr as [v Hv]. exists v. unfold rput. cbn [rmap]. rewrite upd_other; [exact Hv|exact E].
+      + split; [|auto]. destruct (Nat.ltb (S i) retries); cbn [rsafe]; [|exact I].
+        intro Ex. exact (proj1 (Hs Ex)).
+    - (* RDone *) split; [exact I|auto].
+  Qed.
+
+  Lemma rinv_step i0 s i : rinv X B b i0 s -> rinv X B b i0 (sys_step rshared rprog (rstep true) s i).
+  Proof.
+    intros [HF HM]. destruct s as [sh ls]. unfold sys_step. cbn [fst snd] in *.
+    destruct (nth_error ls i) as [lo|] eqn:E; [|split; assumption].
+    assert (Hlo : rsafe X B b lo).
+    { apply (proj1 (Forall_forall _ _) HF). apply (nth_error_In _ _ E). }
+    destruct (rsafe_step lo sh Hlo) as [S1 S2].
+    destruct (rstep true lo sh) as [lo' sh'] eqn:Et. cbn [fst snd] in *.
+    split.
+    - clear - HF S1. revert i. induction ls as [|h t IH]; intros [|j]; cbn; try exact HF.
+      + inversion HF; subst. constructor; assumption.
+      + inversion HF; subst. constructor; [assumption|]. apply IH. assumption.
+    - cbn [fst snd]. destruct (Nat.eq_dec i i0) as [Ei|Ei].
+      + subst i. rewrite E in HM.
+        rewrite nth_error_upd_nth_same; [|apply nth_error_Some; rewrite E; discriminate].
+        destruct lo; try contradiction.
+        * destruct HM as [-> [-> ->]]. cbn [rstep] in Et. injection Et as <- <-. repeat split; reflexivity.
+        * destruct HM as [-> [-> ->]]. cbn [rstep] in Et. injection Et as <- <-.
+          unfold rest, rwrite. cbn [rmap]. rewrite upd_same. eexists. reflexivity.
+        * cbn [rstep] in Et. injection Et as <- <-. exact HM.
+      + rewrite nth_error_upd_nth_other; [|exact Ei].
+        destruct (nth_error ls i0) as [l0|]; [|contradiction].
+        destruct l0; try contradiction; try exact HM.
+        apply S2. exact HM.
+  Qed.
+
+  Lemma rinv_run i0 sched s : rinv X B b i0 s -> rinv X B b i0 (rrun true s sched).
+  Proof.
+    intro H. unfold rrun.
+    apply (inv_all_schedules rshared rprog (rstep true) (rinv X B b i0)); [|exact H].
+    intros s' i Hs. apply rinv_step. exact Hs.
+  Qed.
+
+  Lemma state_login_survives i0 sched s :
+    (B <> 0 \/ b <> 0) ->
+    rinv X B b i0 s ->
+    nth_error (snd (rrun true s sched)) i0 = Some RDone ->
+    rloc (fst (rrun true s sched)) X = Some (B, b).
+  Proof.
+    intros Hnz H E. destruct (rinv_run i0 sched s H) as [_ HM]. rewrite E in HM.
+    destruct HM as [v Hv]. unfold rloc, live. rewrite Hv.
+    assert (Ht : is_tomb (B, b, v) = false).
+    { unfold is_tomb, rval_eqb, tomb. destruct Hnz as [Hn|Hn]; apply N.eqb_neq in Hn; rewrite Hn; [reflexivity|].
+      rewrite andb_false_r. reflexivity. }
+    rewrite Ht. reflexivity.
+  Qed.
+End RStable.
+
+(* the two windows are closed: every interleaving (with all retries) ends at the new login *)
+Fixpoint all_scheds (k : nat) (n : nat) : list (list nat) :=
+  match k with
+  | O => [[]]
+  | S k' => flat_map (fun s => map (fun i => i :: s) (seq 0 n)) (all_scheds k' n)
+  end.
+Definition completed (s : Threads.st rshared rprog) : Threads.st rshared rprog := rrun true s [0;0;0;0;0;0;0;0;1;1]%nat.
+Definition loc_is (o : option (N * N)) (n c : N) : bool := loc_eqb o n c.
+
+Lemma cas_state_windows_closed :
+  forallb (fun sched => loc_is (rloc (fst (completed (rrun true (rs_old, [RDisc 7 1 10 0; RConnect 7 2 20]) sched))) 7) 2 20)
+          (all_scheds 6 2) = true /\
+  forallb (fun sched => loc_is (rloc (fst (completed (rrun true (rs_old, [REnsure 7 1 10 0; RConnect 7 2 20]) sched))) 7) 2 20)
+          (all_scheds 6 2) = true.
+Proof. split; vm_compute; reflexivity. Qed.
+
+Definition moving_state_system : Threads.st rshared rprog :=
+  (rs_old, [RDisc 7 1 10 0; REnsure 7 1 10 0; RConnect 7 2 20; REnsure 7 2 20 0]).
+Lemma moving_state_rinv : rinv 7 2 20 2 moving_state_system.
+Proof.
+  split.
+  - apply Forall_cons; [cbn; intros _ [E _]; discriminate|]. apply Forall_cons; [exact I|].
+    apply Forall_cons; [cbn; intros _; split; reflexivity|]. apply Forall_cons; [exact I|]. apply Forall_nil.
+  - cbn. repeat split; reflexivity.
+Qed.
